@@ -2,7 +2,10 @@
 //! `--cfg sstable_verif`) and the Lean model driver on the same cases and reports
 //!  * judge failures  - the implementation violates the property as judged by the Lean Spec
 //!  * disagreements   - implementation and model differ (the tie is broken)
+mod custom;
+mod gen;
 mod props;
+mod streams;
 mod util;
 use util::*;
 
@@ -58,7 +61,9 @@ fn main() {
         i += 1;
     }
     // panics of the implementation are caught and classified; keep stderr quiet
-    std::panic::set_hook(Box::new(|_| {}));
+    if std::env::var("VERIF_PANIC_TRACE").is_err() {
+        std::panic::set_hook(Box::new(|_| {}));
+    }
     let report = match props::run(&prop, &ctx) {
         Some(r) => r,
         None => {
